@@ -151,6 +151,31 @@ def install():
     if orig_format is not None:
         core._PATCH_REGISTRATIONS[str.format] = _fmt
 
+    # --- negative slice bounds on symbolic strings --------------------------------------
+    # CrossHair 0.0.110 mis-slices a concatenated symbolic string with a negative bound (`('"' + s + '"')[1:-1] == s` is
+    # "refuted" with s = '\x00', which replays as true). Bounds are made non-negative with the string's length first, which
+    # is what CPython does; everything else is left to CrossHair's own implementation.
+    from crosshair.libimpl.builtinslib import LazyIntSymbolicStr
+    _orig_getitem = LazyIntSymbolicStr.__getitem__
+
+    def _getitem(self, i):
+        if isinstance(i, slice) and (i.step is None or i.step == 1):
+            a, b = i.start, i.stop
+            if (a is not None and a < 0) or (b is not None and b < 0):
+                n = len(self)
+                if a is not None and a < 0:
+                    a = n + a
+                    if a < 0:
+                        a = 0
+                if b is not None and b < 0:
+                    b = n + b
+                    if b < 0:
+                        b = 0
+                i = slice(a, b, None)
+        return _orig_getitem(self, i)
+
+    LazyIntSymbolicStr.__getitem__ = _getitem
+
     # --- no contract enforcement on callees (rdflib has no PEP316 contracts; the
     #     interception of every constructor call costs ~40% of the run time) ----------
     from crosshair import enforce as _enf
